@@ -160,10 +160,14 @@ def _int_bits(t):
     return None
 
 
-def check_narrowing(chk, rule, prog, floor=8, eff=None):
+def check_narrowing(chk, rule, prog, floor=1, eff=None):
     from ir import Inst, Const, strip_casts
     n = 0
     cache_box = {}
+    ctl = prog.funcs.get("verif_ctl_narrow")
+    if ctl is not None:
+        hit = any(i.op == "trunc" and _int_bits(getattr(i.operands[0], "type", None)) == 64 for i in ctl.all_insts())
+        chk.ob(rule, "positive control verif_ctl_narrow (a size_t stored into an unsigned) is seen", hit, "controls/ctl_arith.c", key="ctl:narrow")
     for f in prog.lib_funcs():
         for i in f.all_insts():
             if i.op != "trunc":
@@ -496,6 +500,147 @@ def check_slot_reads_below_count(chk, rule, prog, eff, floor=8):
                                         "never written (an indefinite container that is not exactly full, a definite one still being filled)",
                    path=pa.block_lines() if not ok else None)
     chk.floor(rule, "slot reads in loops bounded by a count or capacity field", n, floor)
+
+
+def check_window(chk, rule, prog, kinds, floor, control):
+    """Every access of the wanted kinds (r: reads, w: writes; a window handed on to a callee counts for both) through a
+    (byte pointer, length) parameter pair lies inside [p, p + n) on entry to its block - decided by the window dataflow
+    (lib/window.py).  Not established in a closed function: violation.  Not established in an open one: not judged."""
+    import window as W
+    funcs = [f for f in prog.lib_funcs() if f.blocks]
+    S = W.Summaries(prog, funcs)
+    cf = prog.funcs.get(control)
+    if cf is not None:
+        hit = False
+        for pi, ni in W.window_pairs(cf):
+            w = W.Window(prog, cf, pi, ni, S)
+            acc = w.accesses()
+            hit = hit or (w.closed() and any(a["verdict"] == "short" and a["kind"] in kinds for a in acc))
+        chk.ob(rule, "positive control %s (an access one byte past what the path has asked for) is seen" % control, hit, "controls/ctl_arith.c",
+               key="ctl:" + control)
+    n = 0
+    skipped = 0
+    opened = set()
+    for f in funcs:
+        for pi, ni in W.window_pairs(f):
+            w = W.Window(prog, f, pi, ni, S)
+            acc = w.accesses()
+            closed = w.closed()
+            for a in acc:
+                if a["kind"] != "pass" and a["kind"] not in kinds:
+                    continue
+                ins = a["ins"]
+                what = {"r": "read", "w": "write", "pass": "window handed on"}[a["kind"]]
+                if a["verdict"] == "ok":
+                    n += 1
+                    chk.ob(rule, "%s: %s at line %d lies inside [%s, %s + %s)" % (f.name, what, ins.line, f.params[pi]["name"], f.params[pi]["name"], f.params[ni]["name"]),
+                           True, ins.loc(), fn=f.name, key="%s:win:%d:%d" % (f.name, pi, _ordinal_of(f, ins)))
+                elif closed and a["verdict"] == "short":
+                    n += 1
+                    chk.ob(rule, "%s: %s at line %d lies inside [%s, %s + %s)" % (f.name, what, ins.line, f.params[pi]["name"], f.params[pi]["name"], f.params[ni]["name"]),
+                           False, ins.loc(), fn=f.name, key="%s:win:%d:%d" % (f.name, pi, _ordinal_of(f, ins)), detail=a["detail"] +
+                           "; every comparison that involves the pointer or the length in this function is modelled, so no test on the path rules it out")
+                else:
+                    skipped += 1
+                    opened.add(f.name)
+    if skipped:
+        chk.not_decided.append("%s: %d access(es) in %s are not judged by the window dataflow (the length is checked through a helper, or an "
+                               "offset is computed in a way it does not model); the claim and payload rules cover the streaming decoder" %
+                               (rule, skipped, ", ".join(sorted(opened))))
+    chk.floor(rule, "accesses through (pointer, length) parameter pairs judged by the window dataflow", n, floor)
+    return n
+
+
+def check_payload_reads(chk, rule, prog, eff):
+    """A string's payload is `length` bytes long (possibly none).  Every read of a payload byte at a computed index - the
+    payload pointer being the item's data field, however it was fetched - sits below the length on that path: the index is
+    tested against the length, or it is `length - c` on a path that knows length >= c."""
+    import paths as P
+    import ownership as O
+    off_meta = prog.field_offset("cbor_item_t", "metadata")
+    data_off = prog.field_offset("cbor_item_t", "data")
+    len_offs = {off_meta + prog.field_offset("_cbor_string_metadata", "length"), off_meta + prog.field_offset("_cbor_bytestring_metadata", "length")}
+    getters = pure_getters(prog, eff)
+    in_context = set()
+    for g in prog.lib_funcs():
+        in_context |= O.static_callees(prog, eff, g.name)
+
+    def canon(t):
+        while isinstance(t, tuple) and t[0] == "cast":
+            t = t[3]
+        if isinstance(t, tuple) and t[0] == "ld":
+            return ("ld", canon(t[1]), t[2])
+        return t
+
+    def judge(f, paths_):
+        worst = {}
+        for k, pa in enumerate(paths_):
+            for e in pa.events:
+                if e.kind != "load":
+                    continue
+                b, _o = P.ptr_key(e.args[0])
+                if not (isinstance(b, tuple) and b[0] == "idx" and b[3]) or b[2] != "i8":
+                    continue
+                table = canon(b[1])
+                if not (isinstance(table, tuple) and table[0] == "ld" and table[2] == data_off):
+                    continue
+                X = table[1]
+                i = b[3][-1]
+                lens = [("ld", X, o) for o in len_offs]
+                verdict = None
+                ci = canon(i) if not (isinstance(i, tuple) and i[0] == "cast") else canon(i)
+                if isinstance(ci, tuple) and ci[0] == "op" and ci[1] in ("sub", "add") and P.is_const(ci[4]) and canon(ci[3]) in lens:
+                    c = ci[4][1] if ci[1] == "sub" else ((1 << 64) - ci[4][1]) & ((1 << 64) - 1)
+                    L = ci[3]
+                    st = pa.st
+                    lo = max([st.lo.get(L, 0), st.lo.get(canon(L), 0)] + ([1] if (st.known_positive(L) or st.known_positive(canon(L))) else []))
+                    verdict = "ok" if 1 <= c <= lo else "below"
+                else:
+                    bounds = []
+                    for t, truth, _ in pa.facts[:e.nfacts]:
+                        if not (isinstance(t, tuple) and t[0] == "icmp" and len(t) == 4):
+                            continue
+                        l, r = t[2], t[3]
+                        if l == i and ((t[1] == "ult" and truth) or (t[1] == "uge" and not truth)):
+                            bounds.append(canon(r))
+                        elif r == i and ((t[1] == "ugt" and truth) or (t[1] == "ule" and not truth)):
+                            bounds.append(canon(l))
+                    if any(bd in lens for bd in bounds):
+                        verdict = "ok"
+                    elif P.is_const(i):
+                        verdict = None      # a fixed offset (the value block of a number, a first byte): other rules
+                    elif not bounds and isinstance(ci, tuple) and ci[0] in ("phi", "arg"):
+                        verdict = None      # an index this rule cannot relate to the length: not judged
+                if verdict is None:
+                    continue
+                cur = worst.get(e.ins.id)
+                if cur is None or (verdict != "ok" and cur[0] == "ok"):
+                    worst[e.ins.id] = (verdict, e, pa)
+        return worst
+
+    n = 0
+    ctl = prog.funcs.get("verif_ctl_last_byte")
+    if ctl is not None:
+        w = judge(ctl, P.Executor(prog, eff, inline=getters, loop_bound=1).run(ctl.name))
+        chk.ob(rule, "positive control verif_ctl_last_byte (payload[length - 1] of a possibly empty string) is seen",
+               any(v[0] == "below" for v in w.values()), "controls/ctl_state.c", key="ctl:lastbyte")
+    for f in prog.lib_funcs():
+        if f.name in in_context or f.name in getters:
+            continue
+        inl = (O.static_callees(prog, eff, f.name) | getters) - {f.name}
+        try:
+            paths_ = P.Executor(prog, eff, inline=inl, loop_bound=1, max_paths=4000).run(f.name)
+        except P.PathCapExceeded:
+            continue
+        for key, (verdict, e, pa) in judge(f, paths_).items():
+            n += 1
+            ok = verdict == "ok"
+            chk.ob(rule, "%s: the payload byte read at line %d lies below the string's length" % (f.name, e.ins.line), ok, e.ins.loc(), fn=f.name,
+                   key="%s:payloadread:%d" % (f.name, _ordinal_of(f, e.ins) if e.fn is f else e.ins.id),
+                   detail="" if ok else "the index is the length minus a constant on a path that does not know the string to be that long: an "
+                                        "empty string makes it wrap, and the byte read lies outside the payload block",
+                   path=pa.block_lines() if not ok else None)
+    return n
 
 
 # ---------------------------------------------------------------------------
